@@ -438,7 +438,9 @@ Lemma cread_S f want c racc :
         let '(ok1, r1) := if cr_not_first c then discard 4 2 (cr_inner c) else (true, cr_inner c) in
         if negb ok1 then (racc, REOF, {| cr_inner := r1; cr_remain := cr_remain c; cr_not_first := true |}) else
         match scan_hex 20 r1 None with
-        | (None, r2) => (racc, REOF, {| cr_inner := r2; cr_remain := cr_remain c; cr_not_first := true |})
+        | (None, r2) =>
+            (racc, match rd_buf r1 with [] => REOF | _ => RErrOther end,
+             {| cr_inner := r2; cr_remain := cr_remain c; cr_not_first := true |})
         | (Some sz, r2) =>
             let '(ok3, r3) := discard 100 header_skip r2 in
             let c' := {| cr_inner := r3; cr_remain := sz; cr_not_first := true |} in
@@ -472,7 +474,9 @@ Lemma cread_header f want c racc :
   let '(ok1, r1) := if cr_not_first c then discard 4 2 (cr_inner c) else (true, cr_inner c) in
   if negb ok1 then (racc, REOF, {| cr_inner := r1; cr_remain := cr_remain c; cr_not_first := true |}) else
   match scan_hex 20 r1 None with
-  | (None, r2) => (racc, REOF, {| cr_inner := r2; cr_remain := cr_remain c; cr_not_first := true |})
+  | (None, r2) =>
+      (racc, match rd_buf r1 with [] => REOF | _ => RErrOther end,
+       {| cr_inner := r2; cr_remain := cr_remain c; cr_not_first := true |})
   | (Some sz, r2) =>
       let '(ok3, r3) := discard 100 header_skip r2 in
       let c' := {| cr_inner := r3; cr_remain := sz; cr_not_first := true |} in
@@ -678,7 +682,8 @@ Proof.
   assert (Hl : blen (rev (firstn (Z.to_nat declared) P)) = Z.min declared (blen P)).
   { unfold blen. rewrite rev_length, firstn_length. lia. }
   rewrite Hl.
-  destruct (Z.min declared (blen P) <? declared) eqn:E; [discriminate|].
+  destruct (Z.min declared (blen P) <? declared) eqn:E.
+  { destruct (blen P <? declared); discriminate. }
   assert (Hlt : declared < blen P) by lia.
   rewrite (drain_spec sig Hsig _ c' (skipn (Z.to_nat declared) P) 512 []);
     [| lia | apply Hi; lia | rewrite skipn_length; lia].
@@ -688,7 +693,253 @@ Proof.
   cbn [length] in Er. unfold blen in Hlt. lia.
 Qed.
 
+(* ------------------------------------------------------------------ *)
+(* bytes after the closing chunk                                       *)
+(* The same invariant over a stream [encode sig cs ++ T]: the payload is delivered as before,  *)
+(* and the Read that runs past the closing chunk finds [T] where a chunk header should start.  *)
+(* If [T] is empty that Read ends with io.EOF; if [T] starts with a byte that is not a hex     *)
+(* digit it ends with an error, which ReadAll turns into a refusal.                            *)
+(* ------------------------------------------------------------------ *)
+
+Definition errT (T : list N) : rerr := match T with [] => REOF | _ => RErrOther end.
+
+Definition badT (T : list N) : Prop :=
+  match T with [] => True | g0 :: _ => hexval g0 = None end.
+
+Inductive cinvT (sig T : list N) : creader -> list N -> Prop :=
+| invT_start cs sched eofw :
+    chunks_ok cs ->
+    cinvT sig T {| cr_inner := mk (encode sig cs ++ T) sched eofw; cr_remain := 0;
+                   cr_not_first := false |}
+          (concat cs)
+| invT_mid d cs sched eofw :
+    chunks_ok cs ->
+    cinvT sig T {| cr_inner := mk (d ++ crlf ++ encode sig cs ++ T) sched eofw; cr_remain := blen d;
+                   cr_not_first := true |}
+          (d ++ concat cs)
+| invT_end sched eofw :
+    cinvT sig T {| cr_inner := mk (crlf ++ T) sched eofw; cr_remain := 0; cr_not_first := true |} [].
+
+Lemma encode_nil_eqT sig T :
+  encode sig [] ++ T = hex_of_Z 0 ++ 59%N :: (sig ++ crlf) ++ (crlf ++ T).
+Proof. cbn [encode]. unfold chunk_header. rewrite <- !app_assoc. reflexivity. Qed.
+
+Lemma encode_cons_eqT sig c cs T :
+  encode sig (c :: cs) ++ T
+  = hex_of_Z (blen c) ++ 59%N :: (sig ++ crlf) ++ (c ++ crlf ++ encode sig cs ++ T).
+Proof. cbn [encode]. unfold chunk_header. rewrite <- !app_assoc. reflexivity. Qed.
+
+Lemma scan_hex_badT T sched eofw :
+  badT T -> exists r2, scan_hex 20 (mk T sched eofw) None = (None, r2).
+Proof.
+  intros HT. destruct T as [|g0 g].
+  - eexists. apply scan_hex_nil.
+  - cbn [badT] in HT. rewrite scan_hex_S, HT.
+    destruct (N.eqb g0 59); eexists; reflexivity.
+Qed.
+
+Lemma parse_headerT sig T cs sched eofw :
+  sig_ok sig -> chunks_ok cs ->
+  exists n r2 buf' sched',
+    scan_hex 20 (mk (encode sig cs ++ T) sched eofw) None = (Some n, r2)
+    /\ discard 100 header_skip r2 = (true, mk buf' sched' eofw)
+    /\ cinvT sig T {| cr_inner := mk buf' sched' eofw; cr_remain := n; cr_not_first := true |} (concat cs)
+    /\ (length buf' < length (encode sig cs ++ T))%nat.
+Proof.
+  intros Hsig Hcs. destruct cs as [|c cs].
+  - rewrite encode_nil_eqT.
+    destruct (scan_hex_hex 0 ((sig ++ crlf) ++ crlf ++ T) sched eofw) as [s1 H1]; [split; [lia|reflexivity]|].
+    destruct (discard_spec 100 header_skip (sig ++ crlf) (crlf ++ T) s1 eofw) as [s2 H2].
+    { apply blen_sig_crlf; exact Hsig. }
+    { unfold header_skip. lia. }
+    exists 0, (mk ((sig ++ crlf) ++ crlf ++ T) s1 eofw), (crlf ++ T), s2.
+    split; [exact H1|]. split; [exact H2|]. split; [apply invT_end|].
+    rewrite (app_length (hex_of_Z 0)). cbn [length]. rewrite (app_length (sig ++ crlf)). lia.
+  - rewrite encode_cons_eqT.
+    assert (Hc : c <> [] /\ blen c < 2 ^ 62) by (inversion Hcs; assumption).
+    assert (Hcs' : chunks_ok cs) by (inversion Hcs; assumption).
+    destruct (scan_hex_hex (blen c) ((sig ++ crlf) ++ c ++ crlf ++ encode sig cs ++ T) sched eofw) as [s1 H1].
+    { split; [apply blen_nonneg|]. assert (2 ^ 62 < 16 ^ 19) by reflexivity. lia. }
+    destruct (discard_spec 100 header_skip (sig ++ crlf) (c ++ crlf ++ encode sig cs ++ T) s1 eofw) as [s2 H2].
+    { apply blen_sig_crlf; exact Hsig. }
+    { unfold header_skip. lia. }
+    exists (blen c), (mk ((sig ++ crlf) ++ c ++ crlf ++ encode sig cs ++ T) s1 eofw),
+           (c ++ crlf ++ encode sig cs ++ T), s2.
+    split; [exact H1|]. split; [exact H2|]. split.
+    + cbn [concat]. apply invT_mid. exact Hcs'.
+    + rewrite (app_length (hex_of_Z (blen c))). cbn [length].
+      rewrite (app_length (sig ++ crlf)). lia.
+Qed.
+
+(* chunkedReader.Read over a stream with trailing bytes [T]: as [cread_spec], except that the
+   Read that runs out of payload ends with [errT T] *)
+Lemma cread_specT sig T : sig_ok sig -> badT T -> forall fuel c P want racc,
+  cinvT sig T c P -> (length (rd_buf (cr_inner c)) < fuel)%nat ->
+  exists c', cread fuel want c racc =
+     (rev_append (firstn (Z.to_nat want) P) racc, (if blen P <? want then errT T else RNone), c')
+     /\ (want <= blen P -> cinvT sig T c' (skipn (Z.to_nat want) P)).
+Proof.
+  intros Hsig HT. induction fuel as [|f IH]; intros c P want racc Hinv Hfuel; [lia|].
+  destruct (want <=? 0) eqn:Ew.
+  { rewrite cread_S, Ew. exists c.
+    replace (Z.to_nat want) with 0%nat by lia. cbn [firstn skipn rev_append].
+    pose proof (blen_nonneg P). destruct (blen P <? want) eqn:E; [lia|].
+    split; [reflexivity | intros _; exact Hinv]. }
+  assert (Hw : 1 <= want) by lia.
+  destruct Hinv as [cs sched eofw Hcs | d cs sched eofw Hcs | sched eofw].
+  - (* before the first header *)
+    rewrite cread_header by (auto; reflexivity).
+    cbn [cr_inner cr_remain cr_not_first]. cbn [cr_inner rd_buf mk] in Hfuel.
+    destruct (parse_headerT sig T cs sched eofw Hsig Hcs) as (n & r2 & buf' & s' & Hs & Hd & Hi & Hl).
+    rewrite Hs, Hd. cbn [negb].
+    apply IH; [exact Hi|]. cbn [cr_inner rd_buf mk]. unfold mk in Hfuel; cbn [rd_buf] in Hfuel. lia.
+  - destruct (Z.eq_dec (blen d) 0) as [Hd0|Hd0].
+    + (* end of a chunk: CRLF then the next header *)
+      apply blen_0 in Hd0. subst d.
+      rewrite cread_header by (auto; reflexivity).
+      cbn [cr_inner cr_remain cr_not_first app].
+      unfold mk in Hfuel; cbn [cr_inner rd_buf app] in Hfuel. rewrite (app_length crlf) in Hfuel.
+      destruct (discard_spec 4 2 crlf (encode sig cs ++ T) sched eofw) as [s1 H1]; [reflexivity | lia |].
+      rewrite H1. cbn [negb].
+      destruct (parse_headerT sig T cs s1 eofw Hsig Hcs) as (n & r2 & buf' & s' & Hs & Hd & Hi & Hl).
+      rewrite Hs, Hd. cbn [negb].
+      apply IH; [exact Hi|]. unfold mk; cbn [cr_inner rd_buf]. lia.
+    + (* inside a chunk *)
+      pose proof (blen_nonneg d) as Hdn.
+      rewrite cread_data by (cbn [cr_remain]; lia).
+      cbn [cr_inner cr_remain cr_not_first].
+      destruct (inner_read_prefix (Z.min want (blen d)) d (crlf ++ encode sig cs ++ T) sched eofw)
+        as (out & d' & s' & e & Hir & Hd & Hout & Hlen & He); [lia|].
+      rewrite Hir. cbv beta iota zeta.
+      rewrite He by (unfold crlf; destruct d'; discriminate).
+      assert (Hb : blen d = blen out + blen d') by (rewrite Hd; apply blen_app).
+      replace (blen d - blen out) with (blen d') by lia.
+      assert (Hout1 : 1 <= blen out).
+      { pose proof (blen_nonneg out). destruct (Z.eq_dec (blen out) 0) as [E|E]; [|lia].
+        apply blen_0 in E. congruence. }
+      destruct (IH {| cr_inner := mk (d' ++ crlf ++ encode sig cs ++ T) s' eofw; cr_remain := blen d';
+                      cr_not_first := true |} (d' ++ concat cs) (want - blen out) (rev_append out racc))
+        as (c' & Hc & Hi).
+      { apply invT_mid. exact Hcs. }
+      { unfold mk in *; cbn [cr_inner rd_buf] in *. rewrite Hd in Hfuel.
+        rewrite <- app_assoc, (app_length out) in Hfuel. unfold blen in Hout1. lia. }
+      exists c'. rewrite Hc. subst d. rewrite <- !app_assoc.
+      assert (Hlo : (length out <= Z.to_nat want)%nat) by (unfold blen in *; lia).
+      assert (Hn : Z.to_nat (want - blen out) = (Z.to_nat want - length out)%nat) by (unfold blen; lia).
+      rewrite (firstn_app_ge out _ _ Hlo), (skipn_app_ge out _ _ Hlo), rev_append_app, Hn.
+      rewrite (blen_app out). split.
+      * f_equal. f_equal.
+        destruct (blen (d' ++ concat cs) <? want - blen out) eqn:E1;
+          destruct (blen out + blen (d' ++ concat cs) <? want) eqn:E2; try reflexivity; lia.
+      * intros Hle. rewrite <- Hn. apply Hi. lia.
+  - (* after the final zero chunk: CRLF, then [T] where a header should start *)
+    rewrite cread_header by (auto; reflexivity).
+    cbn [cr_inner cr_remain cr_not_first].
+    destruct (discard_spec 4 2 crlf T sched eofw) as [s1 H1]; [reflexivity | lia |].
+    rewrite H1. cbn [negb].
+    destruct (scan_hex_badT T s1 eofw HT) as [r2 H2]. rewrite H2.
+    eexists. rewrite firstn_nil. cbn [rev_append]. change (blen []) with 0.
+    destruct (0 <? want) eqn:E; [|lia].
+    split; [reflexivity | intros; lia].
+Qed.
+
+Lemma cread_callT sig T c P want :
+  sig_ok sig -> badT T -> cinvT sig T c P ->
+  exists c', cread (read_fuel (cr_inner c)) want c [] =
+     (rev (firstn (Z.to_nat want) P), (if blen P <? want then errT T else RNone), c')
+     /\ (want <= blen P -> cinvT sig T c' (skipn (Z.to_nat want) P)).
+Proof.
+  intros Hsig HT Hinv.
+  destruct (cread_specT sig T Hsig HT (read_fuel (cr_inner c)) c P want [] Hinv (read_fuel_ok c))
+    as (c' & Hc & Hi).
+  exists c'. rewrite Hc, rev_append_rev, app_nil_r. split; [reflexivity | exact Hi].
+Qed.
+
+Lemma read_full_specT sig T f c P want :
+  sig_ok sig -> badT T -> cinvT sig T c P ->
+  exists c', read_full (S f) want c [] =
+     (rev (firstn (Z.to_nat want) P), (if blen P <? want then errT T else RNone), c')
+     /\ (want <= blen P -> cinvT sig T c' (skipn (Z.to_nat want) P)).
+Proof.
+  intros Hsig HT Hinv. pose proof (blen_nonneg P) as HP.
+  destruct (want <=? 0) eqn:Ew.
+  - rewrite read_full_0 by lia. exists c.
+    replace (Z.to_nat want) with 0%nat by lia. cbn [firstn skipn rev].
+    destruct (blen P <? want) eqn:E; [lia|]. split; [reflexivity | intros _; exact Hinv].
+  - cbn [read_full]. rewrite Ew.
+    destruct (cread_callT sig T c P want Hsig HT Hinv) as (c' & Hc & Hi).
+    rewrite Hc. exists c'. split; [|exact Hi].
+    destruct (blen P <? want) eqn:E.
+    + rewrite app_nil_r. destruct T; reflexivity.
+    + assert (Hl : blen (rev (firstn (Z.to_nat want) P)) = want).
+      { unfold blen in *. rewrite rev_length, firstn_length. lia. }
+      rewrite Hl. destruct (want =? 0) eqn:E0; [lia|].
+      rewrite read_full_0 by lia. rewrite app_nil_r. reflexivity.
+Qed.
+
+Lemma drain_specT sig T : sig_ok sig -> badT T -> forall fuel c P bufsz racc,
+  1 <= bufsz -> cinvT sig T c P -> (length P < fuel)%nat ->
+  drain fuel bufsz c racc = (rev P ++ racc, errT T).
+Proof.
+  intros Hsig HT. induction fuel as [|f IH]; intros c P bufsz racc Hb Hinv Hf; [lia|].
+  cbn [drain].
+  destruct (cread_callT sig T c P bufsz Hsig HT Hinv) as (c' & Hc & Hi).
+  rewrite Hc. destruct (blen P <? bufsz) eqn:E.
+  - rewrite firstn_all2 by (unfold blen in E; lia). destruct T; reflexivity.
+  - assert (Hlen : (1 <= length (rev (firstn (Z.to_nat bufsz) P)))%nat).
+    { rewrite rev_length, firstn_length. unfold blen in E. lia. }
+    destruct (rev (firstn (Z.to_nat bufsz) P)) as [|x rout] eqn:Er; [cbn [length] in Hlen; lia|].
+    rewrite <- Er.
+    rewrite (IH c' (skipn (Z.to_nat bufsz) P) bufsz _ Hb).
+    + rewrite app_assoc, <- rev_app_distr, firstn_skipn. reflexivity.
+    + apply Hi. lia.
+    + rewrite skipn_length. unfold blen in E. lia.
+Qed.
+
+(* ReadAll over a well-formed stream followed by bytes that do not start like a chunk header:
+   the result is an error, whatever the declared size, the schedule and the EOF style *)
+Theorem trailing_garbage_error sig chunks g0 g sched eofw size :
+  sig_ok sig -> Forall (fun c => c <> [] /\ blen c < 2 ^ 62) chunks ->
+  hexval g0 = None ->
+  decode_readall (mk (encode sig chunks ++ g0 :: g) sched eofw) size = DError.
+Proof.
+  intros Hsig Hcs Hg. unfold decode_readall.
+  set (T := g0 :: g).
+  set (P := concat chunks).
+  set (r := mk (encode sig chunks ++ T) sched eofw).
+  assert (HT : badT T) by exact Hg.
+  assert (HlenP : (length P < read_fuel r)%nat).
+  { unfold read_fuel, r, mk; cbn [rd_buf]. rewrite app_length.
+    pose proof (concat_le_encode sig chunks) as Hle. fold P in Hle. lia. }
+  destruct (read_full_specT sig T (S (length (rd_buf r))) (cnew r) P size Hsig HT
+              (invT_start sig T chunks sched eofw Hcs)) as (c' & Hr & Hi).
+  change (read_full (read_fuel r)) with (read_full (S (S (length (rd_buf r))))).
+  rewrite Hr.
+  destruct (blen P <? size) eqn:E.
+  - assert (Hs : blen (rev (firstn (Z.to_nat size) P)) <? size = true).
+    { unfold blen in *. rewrite rev_length, firstn_length. lia. }
+    rewrite Hs. reflexivity.
+  - assert (Hs : blen (rev (firstn (Z.to_nat size) P)) <? size = false).
+    { unfold blen in *. rewrite rev_length, firstn_length. lia. }
+    rewrite Hs.
+    rewrite (drain_specT sig T Hsig HT _ c' (skipn (Z.to_nat size) P) 512 []);
+      [| lia | apply Hi; lia | rewrite skipn_length; lia].
+    reflexivity.
+Qed.
+
+(* a stream with anything that does not start like a chunk header after its closing chunk is
+   never accepted, whatever the declared size *)
+Theorem trailing_garbage_rejected sig chunks g0 g sched eofw size :
+  sig_ok sig -> Forall (fun c => c <> [] /\ blen c < 2 ^ 62) chunks ->
+  hexval g0 = None ->
+  forall p, decode_readall (mk (encode sig chunks ++ g0 :: g) sched eofw) size <> DOk p.
+Proof.
+  intros Hsig Hcs Hg p.
+  rewrite (trailing_garbage_error sig chunks g0 g sched eofw size Hsig Hcs Hg). discriminate.
+Qed.
+
 Print Assumptions scan_hex_of_Z.
 Print Assumptions decode_readall_any_schedule.
 Print Assumptions decode_copy_any_schedule.
 Print Assumptions decode_wrong_length_rejected.
+Print Assumptions trailing_garbage_rejected.
